@@ -6,6 +6,7 @@ from . import rules_wrappers as W
 from .decorators import load_decorators
 from . import rules_keymaps as K
 from . import rules_rounding as RR
+from . import rules_cache as S
 
 TECH = 'static analysis: exhaustive path enumeration with typed exception edges over the decorator closures (ast), def-use normal forms, who-may-call rules'
 
@@ -197,9 +198,22 @@ def check_C12(ctx, tier):
             'bypasses rounding; no container is rebuilt through type(x)(...) on a path that admits str; no data dict is **-expanded.')
 
 
+def check_C08(ctx, tier):
+    S.rule_S_PLAIN_EFF(ctx, ctx.repo)
+    S.rule_S_LOAD_DUMP(ctx, ctx.repo)
+    S.rule_S_SYNC(ctx, ctx.repo)
+    S.rule_S_TOGGLE(ctx, ctx.repo)
+    S.rule_S_NULL(ctx, ctx.repo)
+    ctx.assume('archive.update / __asdict__ / __getitem__ of each backend behave as dict operations (C03)')
+    return ('class cache overrides no dict primitive; per-method archive effects equal the table (load reads, dump updates, sync '
+            'clears?/updates/reads, toggles rebind, others none); load/dump transfer exactly {a: source[a]} per argument or the whole '
+            'mapping, load swallows KeyError per key, dump writes only resident keys; sync orders clear?->dump->load?; the (archive, parked) '
+            'typestate reachable set and all (state, operation) transitions equal the toggle algebra; the null archive discards writes.')
+
+
 CHECKS = {
     'C01': check_C01, 'C02': check_C02, 'C05': check_C05, 'C06': check_C06, 'C07': check_C07,
-    'C09': check_C09, 'C10': check_C10, 'C17': check_C17, 'C12': check_C12, 'C15': check_C15, 'C16': check_C16, 'C18': check_C18,
+    'C08': check_C08, 'C09': check_C09, 'C10': check_C10, 'C17': check_C17, 'C12': check_C12, 'C15': check_C15, 'C16': check_C16, 'C18': check_C18,
 }
 
 
